@@ -258,7 +258,7 @@ Proof.
     pose proof (zip_ok_length reg _ _ Hzip) as Hlen.
     assert (Hne : vals <> []).
     { intros ->. cbn in Hver. discriminate. }
-    unfold xident. cbn [unpack_f]. rewrite Z.eqb_refl. cbn [negb]. rewrite Ef.
+    unfold xident. cbn [unpack_f]. rewrite Z.eqb_refl. cbn [negb lookup_ident]. rewrite Ef.
     destruct (map (pack_f c HASH) vals) as [|p0 ps] eqn:Em; [destruct vals; [contradiction|discriminate]|].
     rewrite <- Em. rewrite fit_exact by (rewrite map_length; exact Hlen).
     rewrite (zip_roundtrip reg dp vals (field_types d) IHv Hzip) by lia.
